@@ -156,7 +156,7 @@ inductive Ev where
   | sSerEnd                -- `reb_simulation_save_to_stream` returns
   | sClrNC                 -- `need_copy = 0`                                       (silent)
   | sUnlock                -- `pthread_mutex_unlock`
-  | sSent                  -- response written, buffer freed                        (silent)
+  | sSent                  -- the response is written to the socket (`fwrite(reb_server_header…)`, server.c:328)
   deriving DecidableEq, Repr, Inhabited
 
 def Ev.isI : Ev → Bool
@@ -166,7 +166,7 @@ def Ev.isI : Ev → Bool
 
 /-- events the shim cannot see (plain loads/stores of `need_copy`, socket I/O) -/
 def Ev.silent : Ev → Bool
-  | .iSeeNC0 | .iSeeSrv _ | .iSkipUnlock | .iSetFlag | .iClrFlag | .sReq | .sSetNC | .sClrNC | .sSent => true
+  | .iSeeNC0 | .iSeeSrv _ | .iSkipUnlock | .iSetFlag | .iClrFlag | .sReq | .sSetNC | .sClrNC => true
   | _ => false
 
 /-- an unlocked write of `r` begins (the three places of the code that do it) -/
@@ -345,7 +345,7 @@ structure Obs where
   nc : Option Bool
   deriving Repr, Inhabited
 
-def silentEvs : List Ev := [.iSeeNC0, .iSeeSrv true, .iSeeSrv false, .iSkipUnlock, .iSetFlag, .iClrFlag, .sReq, .sSetNC, .sClrNC, .sSent]
+def silentEvs : List Ev := [.iSeeNC0, .iSeeSrv true, .iSeeSrv false, .iSkipUnlock, .iSetFlag, .iClrFlag, .sReq, .sSetNC, .sClrNC]
 
 def dedup (l : List State) : List State :=
   l.foldl (fun acc s => if acc.contains s then acc else acc ++ [s]) []
